@@ -30,14 +30,16 @@ RULE_OF = {"packages": "Package", "classes": "Class", "groups": "Group", "refs":
 _MM = {}
 
 
-def grammar_of(variant):
+def grammar_of(variant, gopt=False):
+    """gopt: groups have an optional name (`group named g { … }`); an unnamed group then has the name value ''
+    (textX initialises an unmatched optional `name=ID` with ''), so the empty parts of `a..b` / `.a` match it"""
     order = ORDERS[variant]
     body = " | ".join(f"{a}+={RULE_OF[a]}" for a in order)
     gbody = " | ".join(f"{a}+={RULE_OF[a]}" for a in order if a != "groups")
     return f"""
 Model: ({body})*;
 Package: 'package' name=ID '{{' ({body})* '}}';
-Group: 'group' '{{' ({gbody})* '}}';
+Group: 'group' {"('named' name=ID)? " if gopt else ""}'{{' ({gbody})* '}}';
 Class: 'class' name=ID ('friend' friend=[Class:FQN])? ('likes' likes+=[Target:FQN][','])?
        ('{{' ('main' main=Member)? members*=Member refs*=Ref '}}')?;
 Member: 'member' name=ID;
@@ -66,8 +68,13 @@ def build(case):
             objs[parent]["kids"].append(o["id"])
         return o
 
+    gopt = bool(case.get("gopt"))
+
     def container(node, k, parent):
-        o = add(k, node.get("name"), parent, node)
+        nm = node.get("name")
+        if k == "group" and gopt and nm is None:
+            nm = ""  # the value of the unmatched optional name attribute
+        o = add(k, nm, parent, node)
         for a in order:
             if k == "group" and a == "groups":
                 continue
@@ -140,6 +147,9 @@ def render(case):
             nl()
         elif k == "group":
             emit("group")
+            if node.get("name") is not None:
+                emit("named")
+                emit(node["name"])
             emit("{")
             body(node, k)
             emit("}")
@@ -187,7 +197,7 @@ def lean_obj(case):
         k = o["k"]
         kids = [objs[j] for j in o["kids"]]
         if k in ("model", "package", "group"):
-            attrs = [] if k != "package" else [{"p": 0}]
+            attrs = [{"p": 0}] if k == "package" or (k == "group" and case.get("gopt")) else []
             for a in order:
                 if k == "group" and a == "groups":
                     continue
@@ -233,9 +243,7 @@ def chain_end(objs, p, parts):
 
 
 def spec_fqn(objs, cur, dotted, t):
-    parts = dotted.split(".")
-    if any(x == "" for x in parts):
-        return None  # no object is named ''
+    parts = dotted.split(".")  # an empty part matches an object whose name value is '' (unnamed group, gopt) only
     p = cur
     while p is not None:
         e = chain_end(objs, p, parts)
@@ -293,6 +301,7 @@ class Prop(Check):
     def gen_case(self, rng):
         pool = POOL[: rng.randint(3, 5)]
         dup_ok = rng.chance(0.12)
+        gopt = rng.chance(0.35)  # groups with an optional name: unnamed ones carry the name value ''
         budget = [rng.randint(3, 14)]
 
         def fresh(used):
@@ -341,14 +350,24 @@ class Prop(Check):
                     if c:
                         node["packages"].append(c)
                 else:
-                    node["groups"].append(mk_container("group", depth + 1, set()))
+                    g = mk_container("group", depth + 1, set())
+                    if gopt and rng.chance(0.4):
+                        nm = fresh(used)
+                        if nm is not None:
+                            used.add(nm)
+                            g["name"] = nm
+                    elif gopt and not dup_ok and "" in used:
+                        continue  # a second unnamed group here would break sibling-name uniqueness ('' twice)
+                    elif gopt:
+                        used.add("")
+                    node["groups"].append(g)
             return node
 
         tree = mk_container("model", 0, set())
         if not (tree["packages"] or tree["classes"]):
             tree["packages"].append({"k": "package", "name": rng.choice(pool), "packages": [], "groups": [], "refs": [],
                                      "classes": [{"k": "class", "name": rng.choice(pool), "members": [], "refs": []}]})
-        case = {"variant": rng.below(2), "user": rng.chance(0.2), "tree": tree, "probes": []}
+        case = {"variant": rng.below(2), "user": rng.chance(0.2), "tree": tree, "probes": [], "gopt": gopt}
         objs, _ = build(case)
         named = [o for o in objs if o["name"] is not None]
         fail_case = rng.chance(0.35)
@@ -360,8 +379,9 @@ class Prop(Check):
                 i = objs[i]["parent"]
             return out
 
-        def valid_name(cur, want_kinds):
-            """a dotted name that designates some object of a wanted kind, seen from cur"""
+        def valid_name(cur, want_kinds, in_text=True):
+            """a dotted name that designates some object of a wanted kind, seen from cur (in the model text a name
+            must match `FQN: ID('.'ID)*`: no empty parts there)"""
             cands = []
             for a in ancestors(cur):
                 stack = [(j, [objs[j]["name"]]) for j in objs[a]["kids"] if objs[j]["name"] is not None]
@@ -372,11 +392,13 @@ class Prop(Check):
                     for c in objs[j]["kids"]:
                         if objs[c]["name"] is not None:
                             stack.append((c, path + [objs[c]["name"]]))
+            if in_text:
+                cands = [c for c in cands if "" not in c.split(".")]
             return rng.choice(sorted(set(cands))) if cands else None
 
         friend_of = {}
 
-        def edge_walk(cur, steps):
+        def edge_walk(cur, steps, in_text=True):
             """dotted name by a walk over child / parent / reference edges (spurious unless all steps are child steps)"""
             x = rng.choice(ancestors(cur))
             names = []
@@ -386,6 +408,8 @@ class Prop(Check):
                 if par is not None and objs[par]["name"] is not None:
                     opts += [("parent", par)] * 2
                 opts += [("ref", j) for j in friend_of.get(x, [])] * 2
+                if in_text:
+                    opts = [o for o in opts if objs[o[1]]["name"] != ""]
                 if not opts:
                     break
                 _, y = rng.choice(opts)
@@ -448,9 +472,9 @@ class Prop(Check):
             cur = rng.below(len(objs))
             style = rng.weighted([("walk", 6), ("valid", 2), ("random", 2), ("malformed", 1)])
             if style == "walk":
-                nm = edge_walk(cur, rng.randint(1, 4))
+                nm = edge_walk(cur, rng.randint(1, 4), in_text=False)
             elif style == "valid":
-                nm = valid_name(cur, CONF["Target"]) or rng.choice(pool)
+                nm = valid_name(cur, CONF["Target"], in_text=False) or rng.choice(pool)
             elif style == "random":
                 nm = ".".join(rng.choice(pool) for _ in range(rng.randint(1, 3)))
             else:
@@ -481,15 +505,17 @@ class Prop(Check):
                             setattr(self, k, v)
                     return type(nm, (object,), {"__init__": __init__})
 
-                mm = metamodel_from_str(grammar_of(case["variant"]), classes=[mkcls("Package"), mkcls("Class")])
+                mm = metamodel_from_str(grammar_of(case["variant"], case.get("gopt", False)),
+                                        classes=[mkcls("Package"), mkcls("Class")])
                 mm.register_scope_providers({"*.*": FQN()})
             else:
                 # generated classes only: the metamodel is reused by the cases of one worker process
-                mm = _MM.get(case["variant"])
+                key = (case["variant"], bool(case.get("gopt")))
+                mm = _MM.get(key)
                 if mm is None:
-                    mm = metamodel_from_str(grammar_of(case["variant"]))
+                    mm = metamodel_from_str(grammar_of(*key))
                     mm.register_scope_providers({"*.*": FQN()})
-                    _MM[case["variant"]] = mm
+                    _MM[key] = mm
         except Exception as e:
             return {"outcome": "grammar-error", "type": type(e).__name__, "msg": str(e)[:300]}
         try:
@@ -717,7 +743,8 @@ class Prop(Check):
                     yield c
 
     def sample_view(self, case, obs):
-        return {"variant": case["variant"], "text": render(case)[0], "probes": case["probes"][:8],
+        return {"variant": case["variant"], "optional_group_names": bool(case.get("gopt")),
+                "text": render(case)[0], "probes": case["probes"][:8],
                 "user_classes": case.get("user", False), "impl": obs}
 
     def extra_search(self, rng, tier, broken):
